@@ -32,6 +32,16 @@ def in_eas(n):
                                  (n.fn.module is not None and n.fn.module.name.endswith("eas_optical.eas")))
 
 
+def zero_filled(base):
+    """an array created filled with exact zeros: zeros / zeros_like, or full / full_like with the fill value 0"""
+    if is_ext_call(base, "numpy.zeros_like", "numpy.zeros"):
+        return True
+    if is_ext_call(base, "numpy.full_like", "numpy.full") and len(base.args) >= 3:
+        f = base.args[2]
+        return f.op == "Const" and isinstance(f.attr, (int, float)) and not isinstance(f.attr, bool) and f.attr == 0
+    return False
+
+
 def nonzero_alt(n):
     """strip merge arms that are the exact-zero early returns of the kernel"""
     def is_zero(x):
@@ -70,7 +80,7 @@ def run(ck, ctx):
     # ---------------------------------------------------------------- R08.1
     def r081():
         scat = [n for n in walk([numPEs]) if n.op == "Scatter" and in_eas(n) and
-                is_ext_call(scatter_chain(n)[0], "numpy.zeros_like", "numpy.zeros")]
+                zero_filled(scatter_chain(n)[0])]
         tops = [n for n in scat if not any(m.op == "Scatter" and m.args[0] is n for m in scat)]
         if len(tops) != 1:
             raise AnalysisError(f"photon-density array not identified in EAS.__call__ ({len(tops)} candidates)")
@@ -91,8 +101,7 @@ def run(ck, ctx):
         if d is None:
             raise AnalysisError("photon-density array not identified")
         base, chain = scatter_chain(d)
-        ck.ob("R08.3", "photon density defaults to exactly 0 outside the range", is_ext_call(base, "numpy.zeros_like",
-              "numpy.zeros") and len(chain) == 1, d, func, f"{g.show(base, 2)} with {len(chain)} store(s)")
+        ck.ob("R08.3", "photon density defaults to exactly 0 outside the range", zero_filled(base) and len(chain) == 1, d, func, f"{g.show(base, 2)} with {len(chain)} store(s)")
         mask = chain[0].args[1]
         want = ("and", pr.le(I.const(0), alt), pr.le(alt, I.const(20)))
         eq = pr.equivalent(pr.formula(mask), want)
@@ -100,7 +109,7 @@ def run(ck, ctx):
               pr.show(pr.formula(mask))[:200])
         # default angle
         ths = [n for n in walk([costh]) if n.op == "Scatter" and in_eas(n) and
-               is_ext_call(scatter_chain(n)[0], "numpy.full_like", "numpy.full")]
+               is_ext_call(scatter_chain(n)[0], "numpy.full_like", "numpy.full") and not zero_filled(scatter_chain(n)[0])]
         tops = [n for n in ths if not any(m.op == "Scatter" and m.args[0] is n for m in ths)]
         # the angle array is the one filled from the kernel's output
         def from_kernel(v):
